@@ -274,13 +274,21 @@ func (t *Task) removeFromQueues() {
 }
 
 // runWithLocking starts the task, if it may be started. If the task was taken
-// from a queue, queuedAs is the list element it was queued as.
-func (t *Task) runWithLocking(queuedAs *list.Element) {
+// from a queue, queuedAs is the list element it was queued as. If the schedule
+// handler starts it, scheduledAs is the schedule entry it acts on.
+func (t *Task) runWithLocking(queuedAs, scheduledAs *list.Element) {
 	t.lock.Lock()
 
 	// The task may have been removed from the queue (or queued anew) since
 	// the queue handler took the element: that element is then void.
 	if queuedAs != nil && t.queueElement != queuedAs && t.prioritizedQueueElement != queuedAs {
+		t.lock.Unlock()
+		return
+	}
+
+	// Likewise, the task may have been executed from the queue or unscheduled
+	// since the schedule handler picked its entry: that entry is then void.
+	if scheduledAs != nil && t.scheduleListElement != scheduledAs {
 		t.lock.Unlock()
 		return
 	}
@@ -516,7 +524,7 @@ func taskQueueHandler() {
 			t := e.Value.(*Task) //nolint:forcetypeassert // Can only be *Task.
 			verifPoint("queue.popped", t.module)
 			// run
-			t.runWithLocking(e)
+			t.runWithLocking(e, nil)
 		}
 	}
 }
@@ -570,7 +578,7 @@ func taskScheduleHandler() {
 				scheduleLock.Unlock()
 				verifPoint("sched.decided", t.module)
 
-				t.runWithLocking(nil)
+				t.runWithLocking(nil, e)
 			} else {
 				// place in front of prioritized queue
 				t.overtime = true
